@@ -49,7 +49,7 @@ def declare(case, with_inf=True):
             p = ocp.parameter(grid="control"); ocp.set_value(p, np.ones((1, case["N"])))
             ocp.subject_to(x1 * p <= 0.9, grid="inf")
         else:
-            e, lb, ub = CONS[case["con"]](x1, x2, ocp.inf_der(x1), ocp.inf_inert(ocp.t))
+            e, lb, ub = CONS[case.get("con", "x1_le")](x1, x2, ocp.inf_der(x1), ocp.inf_inert(ocp.t))
             if lb is None:
                 ocp.subject_to(e <= ub, grid="inf")
             else:
@@ -279,6 +279,10 @@ def run_reject(case):
     except SolverCalled:
         res = "solver_called"
     except Exception as e:
+        fr = core.rockit_frame(sys.exc_info()[2])
+        if fr is None and not isinstance(e, (RuntimeError, AssertionError)):
+            Block.armed = False
+            raise        # an exception of the harness itself must not be read as a rejection
         res = "raised"
     finally:
         Block.armed = False
